@@ -102,7 +102,7 @@ def run(tier, seed, faults=(), prop="C05", what=("gls",)):
     scs, st = scenarios(grid, 1 if tier == "quick" else 2)
     rng = random.Random(seed)
     rng.shuffle(scs)
-    n_im, n_sc = (400, 60) if tier == "quick" else (len(scs), 600)
+    n_im, n_sc = (900, 150) if tier == "quick" else (len(scs), 900)
     jobs = []
     for i, s in enumerate(scs[:n_im]):
         jobs.append(dict(st=s, backend="iminuit", kind="xy" if i % 3 else "indexed", start=None if i % 2 else (-2.0, 3.0), what=list(what), steps=[]))
@@ -113,7 +113,7 @@ def run(tier, seed, faults=(), prop="C05", what=("gls",)):
     evals = len(jobs)
     if prop == "C05":
         fj = [dict(seed=seed * 1000 + k, deg=1 + k % 2, backend="iminuit" if k % 4 else "scipy", fix=(k % 3 == 0), con=(k % 5 == 0), steps=[])
-              for k in range(60 if tier == "quick" else 600)]
+              for k in range(160 if tier == "quick" else 1500)]
         res = replay_parallel(fj, _float_problem, chunk=5)
         cm.report_issues(rep, "float", fj, res, "random correlated problems (float reference)")
         evals += len(fj)
